@@ -135,7 +135,8 @@ string XMLWriter::getChanPriority() const
  * an with the "data" content. */
 void XMLWriter::label(const char* kind, string data, int x, int y)
 {
-    if (data == "1") {
+    // a trivially true condition is not written; "1" as an exponential rate is a value, not a condition
+    if (data == "1" && std::strcmp(kind, "exponentialrate") != 0) {
         return;
     }
     // TODO: fix the strg conversion instead of manipulating strings
